@@ -43,7 +43,8 @@ Qed.
 
 Lemma left_ok_perm ops k : left_ok_ops ops = true -> In k ops -> Permutation (map (op_mul k) ops) ops.
 Proof.
-  unfold left_ok_ops. intros H Hk. apply andb_prop in H. destruct H as [Hn Hf].
+  unfold left_ok_ops. intros H Hk. apply andb_prop in H. destruct H as [H _]. apply andb_prop in H. destruct H as [H _].
+  apply andb_prop in H. destruct H as [Hn Hf].
   rewrite forallb_forall in Hf. specialize (Hf k Hk).
   apply Permutation_sym. apply NoDup_Permutation_bis.
   - apply nodupb_NoDup; exact Hn.
@@ -99,4 +100,16 @@ Lemma matR_mdet A : mdet (matR A) = IZR (mdetZ A).
 Proof.
   destruct A as [[[[[[[[a b] c] d] e] f] g] h] i]. unfold matR, mdetZ, mdet; cbn.
   rewrite !plus_IZR, !minus_IZR, !mult_IZR, !minus_IZR, !mult_IZR. ring.
+Qed.
+
+(* identity and unimodularity, from the same executable check *)
+Lemma left_ok_ident ops : left_ok_ops ops = true -> In op_id ops.
+Proof.
+  unfold left_ok_ops. intros H. apply andb_prop in H. destruct H as [H _]. apply andb_prop in H. destruct H as [_ H].
+  apply existsb_exists in H. destruct H as (p & Hp & E). apply op_eqb_eq in E. subst. exact Hp.
+Qed.
+Lemma left_ok_det ops k : left_ok_ops ops = true -> In k ops -> (mdetZ (fst k) = 1 \/ mdetZ (fst k) = -1)%Z.
+Proof.
+  unfold left_ok_ops. intros H Hk. apply andb_prop in H. destruct H as [_ H]. rewrite forallb_forall in H. specialize (H k Hk).
+  apply Z.eqb_eq in H. lia.
 Qed.
